@@ -2,11 +2,12 @@
    Statements only; symbolic cryptography (see Model/C06_Handshake.v).  The theorems are about
    a handshake that validates the peer's ephemeral key ([chk] = true), which
    GenFacts/HandshakeFacts.v proves to be what the current source does.
-   Not covered here: the check in contact_request_manager.go that the contact announced after
-   the handshake equals the authenticated key (root package). *)
-From Coq Require Import List NArith Bool.
-From Wesh Require Import Model.C06_Handshake Proofs.C06_Handshake.
+   contact_request_manager.go (what is recorded after the responder role, what is sent and marked
+   after the requester role) is covered by [incoming] / [outgoing] and the generated step facts. *)
+From Coq Require Import List NArith Bool String.
+From Wesh Require Import Model.C06_Handshake Proofs.C06_Handshake Gen.Handshake GenFacts.HandshakeFacts.
 Import ListNotations.
+Open Scope list_scope.
 Open Scope N_scope.
 
 Theorem C06_honest_completes : forall A a B b, honest_run true A a B B b = (true, Some A).
@@ -77,6 +78,32 @@ Proof. exact incoming_card_mismatch. Qed.
 Theorem C06_no_record_without_handshake : forall self c, incoming self None c = None.
 Proof. exact incoming_needs_handshake. Qed.
 
+(* contact_request_manager.go SendContactRequest: the own contact card (account key, rendezvous seed,
+   metadata) is written, and the request marked as sent, only to a peer that proved in this very
+   session that it holds the key of the account the user asked for; with an honest peer both happen;
+   after a failed handshake neither does *)
+Theorem C06_outgoing_only_to_proven_key :
+  forall A a B Y G w m,
+    outgoing_run true A a B Y G = (w, m) -> w = true \/ m = true ->
+    Y <> LowOrder /\ G = AccF (dh a Y) (dh A (Pt B)) nonce_accept B (dh a Y) /\ mentions a (dh a Y).
+Proof. exact outgoing_only_to_proven_key. Qed.
+
+Theorem C06_outgoing_honest_and_failure :
+  (forall A a B b, outgoing (fst (honest_run true A a B B b)) = (true, true)) /\
+  (forall A a B Y G, fst (requester true A a B Y G) = false -> outgoing_run true A a B Y G = (false, false)).
+Proof. exact (conj outgoing_honest outgoing_nothing_on_failure). Qed.
+
+(* the order of the steps the two models assume is the order in the CURRENT source (generated facts) *)
+Theorem C06_contact_request_steps_as_modelled :
+  (send_request_steps = [("handshake.RequestUsingReaderWriter", true); ("writer.WriteMsg", true);
+                         ("c.metadataStore.ContactRequestOutgoingSent", true)] /\
+   incoming_request_steps = [("handshake.ResponseUsingReaderWriter", true); ("reader.ReadMsg", true); ("bytes.Equal", true);
+                             ("contact.CheckFormat", true); ("c.metadataStore.ContactRequestIncomingReceived", true)])%string.
+Proof. exact (conj send_request_order incoming_request_order). Qed.
+
+Print Assumptions C06_contact_request_steps_as_modelled.
+Print Assumptions C06_outgoing_only_to_proven_key.
+Print Assumptions C06_outgoing_honest_and_failure.
 Print Assumptions C06_recorded_contact_is_authenticated.
 Print Assumptions C06_card_naming_another_key_rejected.
 Print Assumptions C06_no_record_without_handshake.
